@@ -689,10 +689,11 @@ static PyObject* base_gemv(PyObject *self, PyObject *args, PyObject *kwrds)
 
   if (Matrix_Check(A)) {
     int ldA = MAX(1,X_NROWS(A));
+    int aiy = abs(iy);   /* scal needs a positive increment */
     if (trans == 'N' && n == 0)
-      scal[id](&m, (bo ? &b : &Zero[id]), (unsigned char*)MAT_BUF(y)+oy*E_SIZE[id], &iy);
+      scal[id](&m, (bo ? &b : &Zero[id]), (unsigned char*)MAT_BUF(y)+oy*E_SIZE[id], &aiy);
     else if ((trans == 'T' || trans == 'C') && m == 0)
-      scal[id](&n, (bo ? &b : &Zero[id]), (unsigned char*)MAT_BUF(y)+oy*E_SIZE[id], &iy);
+      scal[id](&n, (bo ? &b : &Zero[id]), (unsigned char*)MAT_BUF(y)+oy*E_SIZE[id], &aiy);
     else
 #if PY_MAJOR_VERSION >= 3
       gemv[id](&trans_, &m, &n, (ao ? &a : &One[id]),
